@@ -10,28 +10,31 @@ def sh(cmd):
     return subprocess.run(cmd, shell=True, capture_output=True, text=True)
 
 flt = sys.argv[1] if len(sys.argv) > 1 else ''
-assert sh('git -C /repo diff --quiet').returncode == 0, '/repo dirty'
+WT = '/tmp/mutants_wt'
+sh(f'git -C /repo worktree remove --force {WT}; rm -rf {WT}')
+assert sh(f'git -C /repo worktree add --detach {WT} HEAD').returncode == 0
 res = []
 for m in catalog.M:
     if flt not in m['name']:
         continue
-    path = os.path.join('/repo', m['path'])
+    path = os.path.join(WT, m['path'])
     src = open(path).read()
     if src.count(m['old']) < 1:
         print(f"{m['name']}: OLD TEXT NOT FOUND"); res.append((m['name'], 'stale')); continue
     try:
         open(path, 'w').write(src.replace(m['old'], m['new'], 1))
-        diff = sh('git -C /repo diff').stdout
+        diff = sh(f'git -C {WT} diff').stdout
         open(os.path.join(HERE, 'mutants', m['name'] + '.diff'), 'w').write(diff)
-        imp = sh('cd /repo && /venv/bin/python -c "import gearpy"')
+        imp = sh(f'cd {WT} && PYTHONPATH={WT} /venv/bin/python -c "import gearpy"')
         if imp.returncode != 0:
             print(f"{m['name']}: DOES NOT IMPORT"); res.append((m['name'], 'broken')); continue
-        r = sh(f"cd {HERE} && VERIF_EVIDENCE_DIR=/tmp/seed_evidence /venv/bin/python -B run_check.py {m['prop']} --tier quick")
+        r = sh(f"cd {HERE} && PYTHONPATH={WT} GEARPY_REPO={WT} VERIF_EVIDENCE_DIR=/tmp/seed_evidence /venv/bin/python -B run_check.py {m['prop']} --tier quick")
         viol = [l for l in r.stdout.splitlines() if l.startswith('VIOLATION')]
         sigs = [l.strip() for l in r.stdout.splitlines() if l.strip().startswith('sig=')]
         ok = r.returncode == 1 and viol
         print(f"{m['name']}: {'DETECTED' if ok else 'MISSED'} by {m['prop']} quick  {sigs[0][:110] if sigs else ''}")
         res.append((m['name'], 'detected' if ok else 'missed'))
     finally:
-        sh('git -C /repo checkout -- .')
+        sh(f'git -C {WT} checkout -- .')
+sh(f'git -C /repo worktree remove --force {WT}; rm -rf {WT}')
 print({k: sum(1 for _, s in res if s == k) for k in ('detected', 'missed', 'stale', 'broken')})
